@@ -201,7 +201,36 @@ def replay(path):
             for owner, field in v["pairs"]:
                 rep.mismatch(owner, re.sub(r"(model|random)\d+", r"\1", v["cls"]), field, w)
         rep.samples = events[-1:]
-    elif w["kind"] in ("screen", "config", "ui", "model", "track-event", "track-serde", "icao"):
+    elif w["kind"] == "session" and "events" in w:
+        # the recorded session (trimmed to what the lifecycle machine looks at) is judged again by TLC
+        verdicts, st, tr = core.validate_events("Trace_Session", w["events"], "replay", shards=1)
+        for v in verdicts:
+            for owner, field in v["pairs"]:
+                rep.mismatch(owner, re.sub(r"(model|random|life)\d+", r"\1", v["cls"]), field, w)
+    elif w["kind"] == "ui" and w.get("event", {}).get("ev") == "session_end" and re.match(r"(flood|huge)-", w["event"].get("tag", "")):
+        bindir = core.build_apps()
+        tag = w["event"]["tag"]
+        if tag.startswith("flood-"):
+            events = ui_checks.flood_session(bindir, tag, (int(tag.split("-")[1]) - 1) // 3)
+        else:
+            rows, cols = (int(x) for x in tag.split("-")[1].split("x"))
+            events = ui_checks.session(bindir, [("frame",), ("resize", rows, cols), ("key", "F3"), ("key", "F1"), ("frame",)], tag)
+        verdicts, st, tr = core.validate_events("Trace_UI", events, "replay", shards=1, boundary=lambda e: e["ev"] == "session_start")
+        for v in verdicts:
+            for owner, field in v["pairs"]:
+                rep.mismatch(owner, v["cls"], field, w)
+        rep.samples = events[-1:]
+    elif w["kind"] == "ui" and w.get("event", {}).get("ev") == "cli":
+        bindir = core.build_apps()
+        args = w["event"]["args"]
+        ev = ui_checks.cli_pty_event(bindir, args, "replay") if "termios_after" in w["event"] else ui_checks.cli_event(bindir, args)
+        events = [{"ev": "session_start", "tag": "cli", "rx": {"lat": 0, "lon": 0}, "scale9": 0, "retry": 0, "quit_sent": 0, "filter_time": 120}, ev]
+        verdicts, st, tr = core.validate_events("Trace_UI", events, "replay", shards=1, boundary=lambda e: e["ev"] == "session_start")
+        for v in verdicts:
+            for owner, field in v["pairs"]:
+                rep.mismatch(owner, v["cls"], field, w)
+        rep.samples = [ev]
+    elif w["kind"] in ("screen", "config", "ui", "model", "track-event", "track-serde", "icao", "session"):
         # these witnesses are recorded observations of whole sessions / two-build runs: the recorded event is judged again
         # by TLC; to re-execute, run the property's check (same seed reproduces the session)
         ev = w.get("event")
